@@ -17,7 +17,10 @@ RULE = ("frame expressions over the TensorFrames of C07 (random subsets of the n
         "with/without y, explicit num_rows, feature-less frames): (rowpart) cat along rows of 1-4 selections of a frame "
         "vs the frame / the selection of the concatenated positions; (colpart) cat along columns of a per-stype column "
         "partition into 1-4 sub-frames vs the frame; (perturb) a frame vs a copy with one cell / name / target value / "
-        "shape / dict order changed, compared with == in both directions; (lookup) get_col_feat of every column name "
+        "shape / dict order changed, compared with == in both directions; (reuse) multi-step programs in which parts and "
+        "results are objects built once and used again (the same partition concatenated twice, a column part row-split "
+        "and reassembled, the first result compared again after a second cat); every input of every cat is snapshot "
+        "before the call and must be unchanged after it; (lookup) get_col_feat of every column name "
         "and of an absent one; (malformed) mismatched schemas, duplicated names within and across stypes, two targets, "
         "mixed targets, empty list, differing row counts, validate() violations. distinct = distinct (kind, sub-kind, "
         "storage kinds, number of parts, part shapes, outcome); non-trivial = the expression involves at least one "
@@ -460,7 +463,63 @@ def gen_malformed(rng):
     return {"kind": "malformed", "sub": sub, "a": a, "b": None, "lookups": [], "meta": {}}
 
 
-GENS = [(35, gen_rowpart), (25, gen_colpart), (22, gen_perturb), (8, gen_lookup), (10, gen_malformed)]
+def REF(i):
+    return {"op": "ref", "i": i}
+
+
+def gen_reuse(rng):
+    """multi-step cases: parts / results are objects built once and used again after a concatenation"""
+    sub = rng.wpick([(3, "col-cat-twice"), (3, "col-part-row-roundtrip"), (2, "col-result-again"), (2, "row-cat-twice"),
+                     (2, "row-part-col-reuse")])
+    if sub.startswith("col"):
+        c = gen_colpart(rng)
+        while len(c["a"]["parts"]) < 2 and rng.chance(0.8):
+            c = gen_colpart(rng)
+        parts = c["a"]["parts"]
+        full = c["b"]
+        k = len(parts)
+        env = list(parts)
+        cat_refs = {"op": "cat", "parts": [REF(i) for i in range(k)], "dim": 1}
+        checks = [{"as": "colpart", "a": cat_refs, "b": full}]
+        if sub == "col-cat-twice":
+            checks.append({"as": "colpart", "a": cat_refs, "b": full})
+            checks.append({"as": "perturb", "a": REF(0), "b": parts[0]})
+        elif sub == "col-part-row-roundtrip":
+            j = rng.randint(0, k - 1)
+            n = parts[j]["frame"]["n"]
+            cpt = rng.randint(0, n)
+            checks.append({"as": "rowpart", "a": {"op": "cat", "dim": 0,
+                                                  "parts": [{"op": "sel", "of": REF(j), "idx": slice_ix(None, cpt)},
+                                                            {"op": "sel", "of": REF(j), "idx": slice_ix(cpt, None)}]},
+                           "b": parts[j]})
+            checks.append({"as": "colpart", "a": cat_refs, "b": full})
+        else:
+            env.append(cat_refs)                      # the first result, kept
+            checks = [{"as": "colpart", "a": cat_refs, "b": full},            # a second concatenation of the same parts
+                      {"as": "colpart", "a": REF(k), "b": full},             # the first result, compared again
+                      {"as": "perturb", "a": REF(k), "b": cat_refs}]
+        return {"kind": "reuse", "sub": sub, "env": env, "checks": checks, "a": F.subst(cat_refs, env), "b": full,
+                "lookups": [], "meta": {}}
+    r = gen_rowpart(rng)
+    base = r["a"]["parts"][0]["of"] if r["a"]["parts"] else r["b"]
+    env = [base]
+    parts = [dict(p_, of=REF(0)) for p_ in r["a"]["parts"]]
+    env += parts                                       # selections made once
+    k = len(parts)
+    cat_refs = {"op": "cat", "parts": [REF(1 + i) for i in range(k)], "dim": 0}
+    b = r["b"] if r["b"]["op"] == "build" else dict(r["b"], of=REF(0))
+    checks = [{"as": "rowpart", "a": cat_refs, "b": b}, {"as": "rowpart", "a": cat_refs, "b": b}]
+    if sub == "row-part-col-reuse":
+        other = F.gen_frame(rng, n=base["frame"]["n"], featureless_p=0.0, name_prefix="d")
+        other["y"] = None
+        both = {"op": "cat", "parts": [REF(0), B(other)], "dim": 1}
+        checks.insert(1, {"as": "colpart", "a": both, "b": both})
+    checks.append({"as": "perturb", "a": REF(0), "b": base})
+    return {"kind": "reuse", "sub": sub, "env": env, "checks": checks, "a": F.subst(cat_refs, env), "b": F.subst(b, env),
+            "lookups": [], "meta": {}}
+
+
+GENS = [(30, gen_rowpart), (22, gen_colpart), (20, gen_perturb), (8, gen_lookup), (10, gen_malformed), (10, gen_reuse)]
 
 
 def exhaustive(rng):
@@ -517,9 +576,9 @@ def _try(fn):
         return {"ok": False, "exc": C.exc_name(ex), "msg": str(ex)[:160]}
 
 
-def run(case):
+def run_sub(case, env, log):
     obs = {}
-    ta = _try(lambda: F.ev(case["a"]))
+    ta = _try(lambda: F.ev(case["a"], env, log))
     obs["a"] = {"ok": ta["ok"], "exc": ta.get("exc"), "msg": ta.get("msg")}
     if ta["ok"]:
         r = _try(lambda: F.read_frame(ta["v"]))
@@ -527,18 +586,18 @@ def run(case):
         obs["a"]["read_exc"] = None if r["ok"] else r["exc"] + ": " + r["msg"]
         obs["a"]["type"] = type(ta["v"]).__name__
     if case["b"] is not None:
-        tb = _try(lambda: F.ev(case["b"]))
+        tb = _try(lambda: F.ev(case["b"], env, log))
         obs["b"] = {"ok": tb["ok"], "exc": tb.get("exc"), "msg": tb.get("msg")}
         if tb["ok"]:
             r = _try(lambda: F.read_frame(tb["v"]))
             obs["b"]["frame"] = r["v"] if r["ok"] else None
         if ta["ok"] and tb["ok"]:
-            snap_a, snap_b = F.read_frame(ta["v"]), F.read_frame(tb["v"])
+            snap_a, snap_b = F.full_snapshot(ta["v"]), F.full_snapshot(tb["v"])
             e1 = _try(lambda: ta["v"] == tb["v"])
             e2 = _try(lambda: tb["v"] == ta["v"])
             obs["eq_ab"] = (bool(e1["v"]) if e1["ok"] else "raise:" + e1["exc"])
             obs["eq_ba"] = (bool(e2["v"]) if e2["ok"] else "raise:" + e2["exc"])
-            obs["operands_same"] = (F.read_frame(ta["v"]) == snap_a and F.read_frame(tb["v"]) == snap_b)
+            obs["operands_same"] = (F.full_snapshot(ta["v"]) == snap_a and F.full_snapshot(tb["v"]) == snap_b)
     lks = []
     for nm in case["lookups"]:
         if not ta["ok"]:
@@ -552,6 +611,32 @@ def run(case):
         else:
             lks.append({"ok": False, "exc": r["exc"]})
     obs["lookups"] = lks
+    return obs
+
+
+def run(case):
+    log = []
+    if case["kind"] != "reuse":
+        obs = run_sub(case, None, log)
+        obs["mutated"] = log
+        return obs
+    # multi-step: the objects of `env` are built once and REUSED by every check
+    env, obs = [], {"subs": [], "mutated": log, "env": []}
+    for e in case["env"]:
+        r = _try(lambda: F.ev(e, env, log))
+        obs["env"].append({"ok": r["ok"], "exc": r.get("exc"), "msg": r.get("msg")})
+        env.append(r["v"] if r["ok"] else None)
+        if not r["ok"]:
+            return obs
+    snaps = [F.full_snapshot(x) for x in env]
+    for chk in case["checks"]:
+        obs["subs"].append(run_sub(dict(chk, lookups=chk.get("lookups", [])), env, log))
+    # the bound objects themselves must be what they were before the checks used them
+    obs["env_same"] = [F.full_snapshot(x) == s0 for x, s0 in zip(env, snaps)]
+    if obs["subs"]:                                   # summary fields used by stats / nontrivial_sig
+        obs["a"] = obs["subs"][0]["a"]
+        obs["eq_ab"] = [so.get("eq_ab") for so in obs["subs"]]
+        obs["lookups"] = []
     return obs
 
 
@@ -576,10 +661,41 @@ def kinds_of_expr(e):
     return "|".join(ks) if ks else "none"
 
 
+def pure_checks(case):
+    """the checks of a multi-step case as ordinary single cases over pure expressions"""
+    return [{"kind": "reuse-step", "as": chk["as"], "sub": case["sub"] + f"#{k}", "a": F.subst(chk["a"], case["env"]),
+             "b": F.subst(chk["b"], case["env"]), "lookups": chk.get("lookups", []), "meta": {}}
+            for k, chk in enumerate(case["checks"])]
+
+
 def oracle(case, obs):
     if "harness_exc" in obs:
         return dict(key="harness-exc", what="harness failed to run the case: " + obs["harness_exc"], tb=obs.get("tb"))
-    kind, sub = case["kind"], case["sub"]
+    if obs.get("mutated"):
+        m = obs["mutated"][0]
+        return dict(key="cat-mutated-input",
+                    what=f"{case['kind']}/{case['sub']}: torch_frame.cat(..., dim={m['dim']}) changed its input part "
+                         f"{m['part']} (names / data / target / validity differ after the call)",
+                    expected=m["before"], observed=m["after"])
+    if case["kind"] == "reuse":
+        for k, (e, eo) in enumerate(zip(case["env"], obs["env"])):
+            if not eo["ok"]:
+                try:
+                    F.ref_ev(F.subst(e, case["env"]))
+                except R.RefErr:
+                    return None
+                return dict(key="raises:reuse:env", what=f"reuse/{case['sub']}: building object {k} raised {eo['exc']} "
+                            f"({eo['msg']}) on valid input", observed=eo)
+        for k, (pc, so) in enumerate(zip(pure_checks(case), obs["subs"])):
+            f = oracle(pc, dict(so, mutated=[]))
+            if f is not None:
+                f["what"] = f"after reusing the same parts (step {k}): " + f["what"]
+                return f
+        if not all(obs.get("env_same", [])):
+            return dict(key="cat-mutated-input", what=f"reuse/{case['sub']}: an object bound once is not the same after "
+                        "the concatenations that used it", observed=obs.get("env_same"))
+        return None
+    kind, sub = case.get("as", case["kind"]), case["sub"]
     kd = kinds_of_expr(case["a"])
     fl = ":featureless" if kd.replace("|", "").replace("featureless", "") == "" else ""
     # --- expression a against the nested-list reference
@@ -660,6 +776,11 @@ def oracle(case, obs):
 
 
 def shrink(case):
+    if case["kind"] == "reuse":
+        for k in range(len(case["checks"])):
+            if len(case["checks"]) > 1:
+                yield dict(case, checks=case["checks"][:k] + case["checks"][k + 1:])
+        return
     a = case["a"]
     if a["op"] == "cat" and len(a["parts"]) > 1 and case["kind"] == "malformed":
         for k in range(len(a["parts"])):
@@ -745,8 +866,9 @@ def stats(cases, obss):
         if c["kind"] == "rowpart":
             d["zero_row_parts"] += any(len(p) == 0 for p in c["meta"]["poss"])
         d["rejections"] += not o["a"]["ok"]
-        d["eq_true"] += o.get("eq_ab") is True
-        d["eq_false"] += o.get("eq_ab") is False
+        eqs = o.get("eq_ab") if isinstance(o.get("eq_ab"), list) else [o.get("eq_ab")]
+        d["eq_true"] += sum(e is True for e in eqs)
+        d["eq_false"] += sum(e is False for e in eqs)
         d["lookups"] += len(c["lookups"])
     return d
 
@@ -827,6 +949,14 @@ def hyp_terms(case):
 def coq_term(case, obs):
     if not isinstance(obs, dict) or "a" not in obs:
         return None
+    if case["kind"] == "reuse":
+        # the model is pure: reuse of an object is re-evaluation of the expression it is bound to
+        if len(obs["subs"]) != len(case["checks"]):
+            return None
+        terms = [coq_term(pc, so) for pc, so in zip(pure_checks(case), obs["subs"])]
+        if any(t is None for t in terms):
+            return None
+        return "(" + " && ".join(terms) + ")"
     if not expr_modelable(case["a"]) or not expr_modelable(case["b"]):
         return None
     oa = obs["a"]
